@@ -34,20 +34,20 @@ const (
 
 // Task is one supervised goroutine.
 type Task struct {
-	ID     int
-	Name   string
-	Domain string
-	Group  string
-	goid   uint64
-	wake   chan struct{}
-	state  int
-	where  string
-	budget int64
-	dead   bool
-	spin   int64
+	ID      int
+	Name    string
+	Domain  string
+	Group   string
+	goid    uint64
+	wake    chan struct{}
+	state   int
+	where   string
+	budget  int64
+	dead    bool
+	spin    int64
 	parkSeq int64 // when it became runnable (FIFO fairness of the default choice)
-	quiet  bool // waiting for every other task to be blocked (Quiesce)
-	sim    *Sim
+	quiet   bool  // waiting for every other task to be blocked (Quiesce)
+	sim     *Sim
 }
 
 // Config holds the per-run scheduling knobs (drawn from the plan stream, swarm style).
@@ -90,29 +90,30 @@ type Violation struct {
 
 type Stats struct {
 	Steps, Parks, Yields, Preempts, Switches, ClockAdvances, TimeRaces, Tasks, Broadcasts int
-	SimTime                                                                              time.Duration
+	SimTime                                                                               time.Duration
 }
 
 // Sim is one simulated execution.
 type Sim struct {
-	mu      sync.Mutex
-	byGoid  map[uint64]*Task
-	tasks   []*Task
-	current *Task
-	curGoid atomic.Uint64
-	last    *Task
-	kick    chan struct{}
-	lockc   *Cond
-	Cfg     Config
-	Sched   *Choices
-	frozen  map[string]bool
-	start   time.Time
-	stop    bool
-	reason  string
+	mu         sync.Mutex
+	byGoid     map[uint64]*Task
+	tasks      []*Task
+	current    *Task
+	curGoid    atomic.Uint64
+	last       *Task
+	kick       chan struct{}
+	lockc      *Cond
+	Cfg        Config
+	Sched      *Choices
+	frozen     map[string]bool
+	deadGroups map[string]bool
+	start      time.Time
+	stop       bool
+	reason     string
 
 	parkCtr int64
-	ycount int64 // touched by the baton holder only
-	spins  int64
+	ycount  int64 // touched by the baton holder only
+	spins   int64
 
 	St        Stats
 	Panics    []PanicInfo
@@ -262,6 +263,7 @@ func (s *Sim) Spawn(name, domain, group string, f func()) *Task {
 func (s *Sim) spawn(name, domain, group string, f func()) *Task {
 	s.mu.Lock()
 	t := &Task{ID: len(s.tasks), Name: name, Domain: domain, Group: group, wake: make(chan struct{}), state: stBlocked, sim: s}
+	t.dead = s.deadGroups[group]
 	s.tasks = append(s.tasks, t)
 	s.St.Tasks++
 	s.mu.Unlock()
@@ -403,6 +405,7 @@ func (s *Sim) GuardEnd() {
 func (s *Sim) Kill(group string) int {
 	n := 0
 	s.mu.Lock()
+	s.deadGroups[group] = true // tasks started for this incarnation from now on are born dead
 	for _, t := range s.tasks {
 		if t.Group == group && t.state != stDone && !t.dead {
 			t.dead = true
@@ -776,7 +779,7 @@ func RunBubble(t *testing.T, cfg Config, sched *Choices, mapSeed uint64, driver 
 		}()
 		synctest.Test(t, func(t *testing.T) {
 			s = &Sim{byGoid: map[uint64]*Task{}, kick: make(chan struct{}, 1), lockc: NewCond(), Cfg: cfg, Sched: sched,
-				frozen: map[string]bool{}, Probes: map[string]int{}, start: time.Now(), selSeed: mapSeed ^ 0x5851F42D4C957F2D, T: t}
+				frozen: map[string]bool{}, deadGroups: map[string]bool{}, Probes: map[string]int{}, start: time.Now(), selSeed: mapSeed ^ 0x5851F42D4C957F2D, T: t}
 			runtime.VerifSetMapSeed(mapSeed | 1)
 			runtime.VerifSetSelectSeed(s.selSeed | 1)
 			active.Store(s)
